@@ -391,7 +391,7 @@ func (m *Model) Plan(op *Op) *Exp {
 		// handled in Commit
 	case KMisuse:
 		x.Panic = true
-		if c := MisuseTable[op.Slot].Class; c == "debugguard" || c == "debugguardN" {
+		if c := MisuseTable[op.Slot].Class; c == "debugguard" || c == "debugguardN" || c == "uncheckedstale" {
 			x.Either = true
 		}
 	default:
